@@ -406,6 +406,104 @@ func c13Int8(r *R) {
 			r.Bad("Abs/float64", fmt.Sprintf("Abs(%v)", v), "got %v", g)
 		}
 	}
+	c13Wide(r)
+}
+
+// c13Wide: the aggregates in the element type itself, at the ends of the 64-bit types (a detour through
+// float64 loses everything beyond 2^53), and the comparisons on floats with NaN and the infinities
+// (every comparison with NaN is false: InRange is the conjunction as written, not its negated complement).
+func c13Wide(r *R) {
+	wideInts := []int64{math.MaxInt64, math.MaxInt64 - 1, 1<<53 + 1, 1 << 53, -(1<<53 + 1), math.MinInt64 + 1, 7, -3, 0}
+	for _, s := range enum.AllSlices(wideInts, 2) {
+		if len(s) == 0 {
+			continue
+		}
+		var sum int64
+		for _, v := range s {
+			sum += v
+		}
+		r.Eval("Sum-Mean[int64,wide]")
+		if g := gogu.Sum(cp(s)); g != sum {
+			r.Bad("Sum/int64-wide", fmt.Sprintf("Sum(%v)", s), "got %d, want %d", g, sum)
+		}
+		if g := gogu.Mean(cp(s)); g != sum/int64(len(s)) {
+			r.Bad("Mean/int64-wide", fmt.Sprintf("Mean(%v)", s), "got %d, want %d (the mean in the element type)", g, sum/int64(len(s)))
+		}
+	}
+	wideU := []uint64{math.MaxUint64, math.MaxUint64 - 1, 1<<53 + 1, 1<<63 + 3, 5, 0}
+	for _, s := range enum.AllSlices(wideU, 2) {
+		if len(s) == 0 {
+			continue
+		}
+		var sum uint64
+		for _, v := range s {
+			sum += v
+		}
+		r.Eval("Sum-Mean[uint64,wide]")
+		if g := gogu.Mean(cp(s)); g != sum/uint64(len(s)) {
+			r.Bad("Mean/uint64-wide", fmt.Sprintf("Mean(%v)", s), "got %d, want %d", g, sum/uint64(len(s)))
+		}
+		if g := gogu.Sum(cp(s)); g != sum {
+			r.Bad("Sum/uint64-wide", fmt.Sprintf("Sum(%v)", s), "got %d, want %d", g, sum)
+		}
+	}
+	for _, s := range enum.AllSlices([]int{math.MaxInt, math.MinInt, math.MaxInt - 2, 1, -1}, 3) {
+		if len(s) == 0 {
+			continue
+		}
+		mn, mx, sum := s[0], s[0], 0
+		for _, v := range s {
+			sum += v
+			if v < mn {
+				mn = v
+			}
+			if v > mx {
+				mx = v
+			}
+		}
+		r.Eval("aggregates[int,extremes]")
+		if gogu.Min(cp(s)...) != mn || gogu.Max(cp(s)...) != mx || gogu.FindMin(cp(s)) != mn || gogu.FindMax(cp(s)) != mx {
+			r.Bad("FindMin-Max/int-extremes", fmt.Sprintf("Min/Max/FindMin/FindMax(%v)", s), "got %v %v %v %v, want %v %v", gogu.Min(cp(s)...), gogu.Max(cp(s)...), gogu.FindMin(cp(s)), gogu.FindMax(cp(s)), mn, mx)
+		}
+		if gogu.Sum(cp(s)) != sum || gogu.Mean(cp(s)) != sum/len(s) {
+			r.Bad("Sum-Mean/int-extremes", fmt.Sprintf("Sum/Mean(%v)", s), "got %v %v, want %v %v", gogu.Sum(cp(s)), gogu.Mean(cp(s)), sum, sum/len(s))
+		}
+	}
+	nan, inf := math.NaN(), math.Inf(1)
+	fl := []float64{nan, -inf, -1.5, 0, 2.5, inf}
+	for _, x := range fl {
+		for _, lo := range fl {
+			for _, hi := range fl {
+				r.Eval("InRange-Clamp[float64 with NaN/Inf]")
+				if g, want := gogu.InRange(x, lo, hi), x >= lo && x <= hi; g != want {
+					r.Bad("InRange/float64-special-values", fmt.Sprintf("InRange(%v,%v,%v)", x, lo, hi), "got %t, want %t (lo <= x && x <= hi)", g, want)
+				}
+				if lo <= hi && x == x { // an ordered range and an ordered number
+					want := x
+					if x < lo {
+						want = lo
+					} else if x > hi {
+						want = hi
+					}
+					if g := gogu.Clamp(x, lo, hi); g != want {
+						r.Bad("Clamp/float64-special-values", fmt.Sprintf("Clamp(%v,%v,%v)", x, lo, hi), "got %v, want %v", g, want)
+					}
+				}
+			}
+		}
+	}
+	for _, x := range []float32{float32(nan), 0, 1, float32(inf)} {
+		for _, lo := range []float32{float32(nan), 0, float32(-inf)} {
+			for _, hi := range []float32{float32(nan), 1, float32(inf)} {
+				r.Eval("InRange[float32 with NaN/Inf]")
+				if g, want := gogu.InRange(x, lo, hi), x >= lo && x <= hi; g != want {
+					r.Bad("InRange/float32-special-values", fmt.Sprintf("InRange(%v,%v,%v)", x, lo, hi), "got %t, want %t", g, want)
+				}
+			}
+		}
+	}
+	r.Nontrivial("wide-a")
+	r.Nontrivial("wide-b")
 }
 
 // refRange is the statement's definition.
